@@ -127,6 +127,7 @@ class Run:
         self.axioms = []
         self.viol = []         # dicts: {what, replay: {...}, found_input: bool}
         self.known = []        # known-finding lines
+        self.known_hits = {}   # finding id -> times a suite/search reproduced it on this run
         self.assumptions = []
         self.evaluations = 0
         self.distinct = set()
@@ -257,6 +258,15 @@ class Run:
         self.evaluations += total
         for k in summ.get('keys', []):
             self.distinct.add(name + ':' + k)
+        for i in range(summ.get('distinct_count', 0)):
+            self.distinct.add('%s:#%d' % (name, i))
+        for v in summ.get('violations', [])[:3]:
+            self.violation(v.get('what', 'property fails on this input'), {'kind': 'input', 'suite': name, 'case': v})
+        for fid, n in summ.get('known_hits', {}).items():
+            self.known_hits[fid] = self.known_hits.get(fid, 0) + n
+        if summ.get('n_violations'):
+            st_v = summ['n_violations']
+            self.search[name + ':oracle'] = {'violations': st_v}
         if summ.get('rule'):
             self.rule.append('%s: %s' % (name, summ['rule']))
         for smp in summ.get('samples', [])[:3]:
